@@ -22,6 +22,7 @@ type c04gen struct {
 	stats   map[string]int
 	// region bookkeeping
 	regionHit bool
+	sugarOK   bool // this history may contain operations outside the Coq grammar
 }
 
 // ---------------------------------------------------------------- safe evaluation against the current state
@@ -576,6 +577,8 @@ func (g *c04gen) candidate(depth int) *c04op {
 		return g.call()
 	case c < 86 && depth > 0: // range
 		return g.rangeOp(depth)
+	case c < 89 && depth == 2 && g.sugarOK: // constructs outside the Coq grammar, with the core operations they must equal
+		return g.sugar()
 	default: // pointers
 		switch g.r.intn(6) {
 		case 0:
@@ -766,6 +769,80 @@ func c04OpMultiNil(o *c04op) bool {
 	return false
 }
 
+// append(s, e1, ..., en) with n >= 2 where some ei, i >= 2, is a variable / element / field read
+func c04OpAppendAlias(o *c04op) bool {
+	r := o.Rhs
+	if (o.K != "assign" && o.K != "define") || r == nil || r.K != "append" {
+		return false
+	}
+	for i, e := range r.L {
+		if i >= 1 && e.K == "load" {
+			return true
+		}
+	}
+	return false
+}
+
+func (e *c04ex) contains(p func(*c04ex) bool) bool {
+	if e == nil {
+		return false
+	}
+	if p(e) {
+		return true
+	}
+	for _, x := range []*c04ex{e.A, e.B, e.C, e.D} {
+		if x.contains(p) {
+			return true
+		}
+	}
+	for _, x := range e.L {
+		if x.contains(p) {
+			return true
+		}
+	}
+	return false
+}
+
+func (o *c04op) exprs() []*c04ex {
+	out := []*c04ex{o.Lv, o.A, o.B}
+	out = append(out, o.Lvs...)
+	out = append(out, o.Rvs...)
+	if o.Rhs != nil {
+		out = append(out, o.Rhs.E, o.Rhs.E2)
+		out = append(out, o.Rhs.L...)
+		out = append(out, o.Rhs.L2...)
+	}
+	return out
+}
+
+// an array or slice literal with an element that goes through q[i] with q a pointer to an array
+func c04OpArrayLitPtrArray(o *c04op) bool {
+	isPtrIdx := func(e *c04ex) bool { return e.K == "idx" && e.A.K == "deref" }
+	if o.Rhs != nil && o.Rhs.K == "slicelit" {
+		for _, e := range o.Rhs.L {
+			if e.contains(isPtrIdx) {
+				return true
+			}
+		}
+	}
+	for _, e := range o.exprs() {
+		if e.contains(func(x *c04ex) bool {
+			if x.K != "arr" {
+				return false
+			}
+			for _, el := range x.L {
+				if el.contains(isPtrIdx) {
+					return true
+				}
+			}
+			return false
+		}) {
+			return true
+		}
+	}
+	return false
+}
+
 func c04OpVarStructLit(o *c04op) bool {
 	return o.K == "assign" && o.Lv.K == "var" && o.Rhs.K == "pure" && o.Rhs.E.K == "struct"
 }
@@ -820,6 +897,12 @@ func (g *c04gen) acceptable(o *c04op) bool {
 		return false
 	}
 	if c04AnyOp(o, func(x *c04op) bool { return x.K == "call" && x.Lv != nil && !c04Stable(x.Lv) }) {
+		return false
+	}
+	if g.mode != "append-multi-alias" && c04AnyOp(o, c04OpAppendAlias) {
+		return false
+	}
+	if g.mode != "arraylit-ptr-array-field" && c04AnyOp(o, c04OpArrayLitPtrArray) {
 		return false
 	}
 	return true
@@ -918,4 +1001,104 @@ func c04NewGen(r *rng, mode string) *c04gen {
 		g.scope = append(g.scope, c04scopeVar{id, c04PoolTypes[id]})
 	}
 	return g
+}
+
+// ---------------------------------------------------------------- constructs outside the Coq grammar
+
+func c04AsgInt(l *c04ex, r *c04ex) *c04op { return &c04op{K: "assign", Lv: l, Rhs: c04Pure(r)} }
+
+// sugar: methods, closures, interface boxing, function literals, channels: each is rendered as Go
+// text and interpreted by the reference interpreter through an equivalent list of core operations.
+func (g *c04gen) sugar() *c04op {
+	x := g.lvS(1)
+	xs := x.goStr()
+	c := g.smallInt()
+	n := g.freshVar()
+	jv := c04Var(10, c04TInt)
+	xN := c04Fld(x, 0)
+	tmp := g.freshVar()
+	saveN := &c04op{K: "define", X: tmp, Rhs: c04Pure(c04Load(xN))}
+	setN := c04AsgInt(xN, c04IntLit(c))
+	o := &c04op{K: "sugar", Unmodelled: true}
+	switch g.r.intn(8) {
+	case 0: // value receiver: the method works on a copy
+		o.Text = []string{fmt.Sprintf("%s.SetN(%d)", x.goBase(), c)}
+		o.Sugar = "method-value-receiver"
+	case 1: // pointer receiver on an addressable operand
+		o.Text = []string{fmt.Sprintf("%s.Inc()", x.goBase())}
+		o.Equiv = []*c04op{c04AsgInt(xN, c04Add(c04Load(xN), c04IntLit(1)))}
+		o.Sugar = "method-pointer-receiver"
+	case 2:
+		o.Text = []string{fmt.Sprintf("j = %s.Get()", x.goBase())}
+		o.Equiv = []*c04op{c04AsgInt(jv, c04Load(xN))}
+		o.Sugar = "method-read"
+	case 3: // closure: captures by reference
+		o.Text = []string{fmt.Sprintf("f%d := func() int { return %s.N }", n, x.goBase()), fmt.Sprintf("%s.N = %d", x.goBase(), c), fmt.Sprintf("j = f%d()", n)}
+		o.Equiv = []*c04op{setN, c04AsgInt(jv, c04Load(xN))}
+		o.Sugar = "closure-by-reference"
+	case 4: // conversion to an interface copies
+		o.Text = []string{fmt.Sprintf("e%d := interface{}(%s)", n, xs), fmt.Sprintf("%s.N = %d", x.goBase(), c), fmt.Sprintf("j = e%d.(S).N", n)}
+		o.Equiv = []*c04op{saveN, setN, c04AsgInt(jv, c04Load(c04Var(tmp, c04TInt)))}
+		o.Sugar = "interface-conversion"
+	case 5: // function literal, struct by value
+		o.Text = []string{fmt.Sprintf("func(x S) { x.N = %d; x.A[0] = %d }(%s)", c, c, xs)}
+		o.Sugar = "funclit-by-value"
+	case 6: // array by value through a function literal
+		o.Text = []string{fmt.Sprintf("a = func(x [3]S) [3]S { x[0].N = %d; return x }(a)", c)}
+		o.Equiv = []*c04op{c04AsgInt(c04Fld(c04Idx(c04Var(0, c04TA3S), c04IntLit(0)), 0), c04IntLit(c))}
+		o.Sugar = "funclit-array-by-value"
+	default: // channel send copies
+		o.Text = []string{fmt.Sprintf("ch%d := make(chan S, 1)", n), fmt.Sprintf("ch%d <- %s", n, xs), fmt.Sprintf("%s.N = %d", x.goBase(), c), fmt.Sprintf("j = (<-ch%d).N", n)}
+		o.Equiv = []*c04op{saveN, setN, c04AsgInt(jv, c04Load(c04Var(tmp, c04TInt)))}
+		o.Sugar = "channel-send"
+	}
+	return o
+}
+
+// regionSugar: the constructs of the known-finding regions that lie outside the Coq grammar.
+func (g *c04gen) regionSugar() *c04op {
+	x := g.lvS(1)
+	c := g.smallInt()
+	n := g.freshVar()
+	jv := c04Var(10, c04TInt)
+	xN := c04Fld(x, 0)
+	tmp := g.freshVar()
+	saveN := &c04op{K: "define", X: tmp, Rhs: c04Pure(c04Load(xN))}
+	setN := c04AsgInt(xN, c04IntLit(c))
+	o := &c04op{K: "sugar", Unmodelled: true, Sugar: g.mode}
+	switch g.mode {
+	case "method-value-receiver-alias":
+		o.Text = []string{fmt.Sprintf("f%d := %s.Get", n, x.goBase()), fmt.Sprintf("%s.N = %d", x.goBase(), c), fmt.Sprintf("j = f%d()", n)}
+		o.Equiv = []*c04op{saveN, setN, c04AsgInt(jv, c04Load(c04Var(tmp, c04TInt)))}
+	case "interface-boxing-alias":
+		o.Text = []string{fmt.Sprintf("var e%d interface{} = %s", n, x.goStr()), fmt.Sprintf("%s.N = %d", x.goBase(), c), fmt.Sprintf("j = e%d.(S).N", n)}
+		o.Equiv = []*c04op{saveN, setN, c04AsgInt(jv, c04Load(c04Var(tmp, c04TInt)))}
+	case "defer-arg-alias":
+		o.Text = []string{fmt.Sprintf("func() { defer func(d S) { j = d.N }(%s); %s.N = %d }()", x.goStr(), x.goBase(), c)}
+		o.Equiv = []*c04op{saveN, setN, c04AsgInt(jv, c04Load(c04Var(tmp, c04TInt)))}
+	case "named-result-alias":
+		if !c04Stable(x) {
+			return nil
+		}
+		o.Text = []string{fmt.Sprintf("%s = fnr(&%s)", x.goStr(), x.goStr())}
+		z := g.zeroEx(c04TS)
+		z.L[0] = c04IntLit(5)
+		o.Equiv = []*c04op{{K: "assign", Lv: x, Rhs: c04Pure(z)}}
+	case "range-ptr-array":
+		// for k, v := range q (q a pointer variable): the hidden slot of the loop is the slot of t
+		t := g.freshVar()
+		kv, vv := g.freshVar(), g.freshVar()
+		o.Text = []string{fmt.Sprintf("t%d := %s", t, c04Var(8, c04TLI).goStr()), fmt.Sprintf("for t%d, t%d := range q {", kv, vv), fmt.Sprintf("\t_, _ = t%d, t%d", kv, vv), "}", fmt.Sprintf("si = t%d", t)}
+		o.Equiv = []*c04op{{K: "assign", Lv: c04Fld(c04Idx(c04Deref(c04Load(c04Var(6, c04TPA))), c04IntLit(0)), 0), Rhs: c04Pure(c04Load(c04Fld(c04Idx(c04Deref(c04Load(c04Var(6, c04TPA))), c04IntLit(0)), 0)))}}
+	case "addr-of-ptr-array-elem":
+		e := c04Addr(c04Idx(c04Deref(c04Load(c04Var(6, c04TPA))), g.indexFor(3)))
+		e.Implicit = true
+		return &c04op{K: "assign", Lv: c04Var(5, c04TPS), Rhs: c04Pure(e), Unmodelled: true}
+	case "arraylit-ptr-array-field":
+		el := c04Load(c04Fld(c04Idx(c04Deref(c04Load(c04Var(6, c04TPA))), g.indexFor(3)), 0))
+		return &c04op{K: "assign", Lv: c04Var(7, c04TA4), Rhs: c04Pure(c04Lit(c04TA4, []*c04ex{el, c04IntLit(1), c04IntLit(2), c04IntLit(3)})), Unmodelled: true}
+	default:
+		return nil
+	}
+	return o
 }
